@@ -37,7 +37,7 @@ def tasks(tier):
     for udp in (0, 1):
         ts.append(Task('verifHarness_C14_server', [udp]))
     ts.append(Task('verifHarness_C14_terminated', []))
-    for kind, ek in ((0, 0), (0, 1), (1, 0), (1, 1), (2, 0)):
+    for kind, ek in ((0, 0), (0, 1), (1, 0), (1, 1), (2, 0), (3, 0)):
         ts.append(Task('verifHarness_C14_broadcast', [kind, ek]))
     for kind in (0, 1, 2):
         for second in (0, 1):
@@ -66,7 +66,7 @@ def bounds(tier):
                             'provide() calls; timers are treated as fired and their durations logged; closed endpoint',
             'T2_connect_close': 'TCP / UDP client whose connection attempt gets no answer: closing the endpoint ends provide() with errTerminated (one schedule)',
             'T2_backoff_close': 'serial / TCP client / UDP client provide() with every attempt failing and reconnect timers that have not elapsed: closing the endpoint ends provide() with errTerminated (one schedule)',
-            'T5_broadcast': 'UDP broadcast connection wrapper: one Read / Write, write timeout and clock symbolic, byte count 0..8, error or not, failing SetWriteDeadline',
+            'T5_broadcast': 'UDP broadcast connection wrapper: one Read / Write, write timeout and clock symbolic, byte count 0..8, error or not, failing SetWriteDeadline; a channel ends (connection closed), the next connection provided still reads from a working socket, closing the endpoint releases it',
             'T4_server': 'TCP and UDP server provide(): two accepted peers then an accept error; idle, write and read timeouts symbolic', 'T2_long_outage': 'TCP client with 5, 6 and 8 failed attempts (virtual time: the reconnect waits add up past the 10 s connect timeout)',
             'T3_provider': 'scripted endpoint handing out 3 connections then terminating; one-at-a-time or not; channels reported done or not',
             'NOT DECIDED': 'that the close event carries the reader error and that an expired deadline ends the channel (both through '
